@@ -72,12 +72,60 @@ void explore02(Options const& o, std::vector<Shim*> const& shims, std::vector<Sh
       u64 n = static_cast<u64>(S.size()) * S.size(); rec.add_states(n, n + n/4, n + n/4);
       rec.count("branch.ff.raw_product_fits_int64", brs[0]); rec.count("branch.ff.between", brs[1]); rec.count("branch.ff.out_of_range", brs[2]);
       }
+    // ---- directed pairs: products at the boundaries of the three clauses, in-band sentinel collisions, aliasing, dense fraction windows
+    {
+    LocalViol lv(rec); u64 n = 0;
+    std::vector<std::pair<i64,i64>> dp;
+    const i128 T[4] = { static_cast<i128>(1) << 63, static_cast<i128>(FX_MAX) * 65536, (static_cast<i128>(1) << 63) - 1, static_cast<i128>(FX_MAX) * 65536 + 65535 };
+    for( i128 t : T )
+      {
+      for( i64 b : Sa ) { if( b == 0 ) continue; i128 q = t / b; for( int d = -2; d <= 2; ++d ) for( int sg = 0; sg < 2; ++sg ) { i128 a = (sg ? -q : q) + d; if( a >= FX_LOWEST && a <= FX_MAX ) dp.push_back({static_cast<i64>(a), b}); } }
+      i64 r = static_cast<i64>(std::sqrt(static_cast<long double>(t)));
+      for( int d1 = -3; d1 <= 3; ++d1 ) for( int d2 = -3; d2 <= 3; ++d2 ) for( int sg = 0; sg < 4; ++sg ) dp.push_back({ (sg & 1 ? -1 : 1) * (r + d1), (sg & 2 ? -1 : 1) * (r + d2) });
+      }
+    // every factorisation a*b == INT64_MAX (the NaN pattern) and == INT64_MAX-1 (max()): a legal product that collides with a sentinel
+    {
+    const i64 P1[7] = { 7, 7, 73, 127, 337, 92737, 649657 };            // 2^63 - 1
+    const i64 P2[4] = { 2, 3, 715827883, 2147483647 };                   // 2^63 - 2
+    auto divisors = [&](const i64* p, int np, i64 total) { std::vector<i64> ds { 1 }; for( int i = 0; i < np; ++i ) { size_t m = ds.size(); for( size_t k = 0; k < m; ++k ) ds.push_back(ds[k] * p[i]); }
+      std::sort(ds.begin(), ds.end()); ds.erase(std::unique(ds.begin(), ds.end()), ds.end()); for( i64 dv : ds ) for( int sg = 0; sg < 2; ++sg ) for( int d = -1; d <= 1; ++d ) dp.push_back({ (sg ? -dv : dv), (sg ? -(total / dv) : total / dv) + d }); };
+    divisors(P1, 7, INT64_MAX); divisors(P2, 4, INT64_MAX - 1);
+    }
+    for( int op : { B_MUL, B_MULEQ } ) for( size_t i = 0; i < dp.size(); ++i )
+      { c.ff(s, op, dp[i].first, dp[i].second, s->fm_bin(op, dp[i].first, dp[i].second), ob | (5ull << 48) | (static_cast<u64>(op) << 40) | i, lv); c.ff(s, op, dp[i].second, dp[i].first, s->fm_bin(op, dp[i].second, dp[i].first), ob | (5ull << 48) | (static_cast<u64>(op) << 40) | i, lv); n += 2; }
+    { C02 cs(rec); cs.c_nan_small = cs.c_not_nan = cs.c_inexact = rec.cls("C02.mul_self_aliased.wrong");
+      for( size_t i = 0; i < S.size(); ++i ) { i64 x = S[i]; i64 g = s->fm_un(U_MULEQ_SELF, x); i64 e = s->fm_bin(B_MULEQ, x, x);
+        // x *= x must behave as x * x: judged by the same three clauses, and it must equal the non-aliased form bit for bit
+        if( g != e && !(fx_isnan(g) && fx_isnan(e)) ) lv.hit(cs.c_inexact, ob | (6ull << 48) | i, [=]{ return ex1(s, "x *= x (same object)", "", {{"x",to_s(x)}}, to_s(e) + " (= x * x)", to_s(g), "self", {to_s(x)}); });
+        ++n; } }
+    rec.add_states(n, n, n); rec.count("directed_boundary_and_sentinel_pairs", n);
+    }
+    // dense fraction windows: every low-16-bit pattern of one operand at every magnitude, against operands of all magnitudes
+    {
+    std::vector<i64> As { 1, 3, 65536, 98304, 1ll<<20, (1ll<<31) + 12345, 1ll<<32, (1ll<<40) + 1, 0x5555555555ll, 1ll<<46, (1ll<<47) - 1, 1ll<<47, 0x6487ed5110b4ll, 1ll<<55, 1ll<<62, FX_MAX };
+    size_t na = As.size(); for( size_t i = 0; i < na; ++i ) As.push_back(-As[i]);
+    std::vector<i64> bases; for( int e = 16; e <= 62; ++e ) { bases.push_back(1ll << e); bases.push_back(-(1ll << e)); if( e < 62 ) bases.push_back((3ll << (e - 1)) ); }
+    for( int op : { B_MUL, B_MULEQ } )
+      parallel_blocks(bases.size(), o.threads, [&](size_t bi, int) {
+        LocalViol lv(rec); std::vector<i64> bw(65536), out(65536);
+        for( size_t t = 0; t < 65536; ++t ) bw[t] = bases[bi] + static_cast<i64>(t);
+        for( size_t ai = 0; ai < As.size(); ++ai )
+          {
+          s->fm_bin_row(op, As[ai], bw.data(), bw.size(), out.data());
+          for( size_t t = 0; t < 65536; ++t ) c.ff(s, op, As[ai], bw[t], out[t], ob | (7ull << 48) | (static_cast<u64>(op) << 44) | ((bi * As.size() + ai) << 16) | t, lv);
+          }
+        });
+    u64 n = static_cast<u64>(bases.size()) * As.size() * 65536 * 2; rec.add_states(n, n, n); rec.count("dense_fraction_window_states", n);
+    }
     for( int t : INT_TYPES ) for( int ord = 0; ord < 3; ++ord )
       {
       std::vector<u64> const& ns = tv[t];
       std::mutex m; u64 brs[5] = {0,0,0,0,0};
       parallel_blocks(ns.size(), o.threads, [&](size_t in, int) {
         LocalViol lv(rec); u64 br[5] = {0,0,0,0,0};
+        // scalar products at the limit: a = +-(max() / n) +- 2
+        { i128 nv = int_value(t, ns[in]); if( nv != 0 ) { i128 q = static_cast<i128>(FX_MAX) / nv; for( int sg = 0; sg < 2; ++sg ) for( int d = -2; d <= 2; ++d ) { i128 a = (sg ? -q : q) + d; if( a >= FX_LOWEST && a <= FX_MAX )
+            c.scalar(s, t, ord, static_cast<i64>(a), ns[in], static_cast<i64>(s->fm_mixed(M_MUL, t, ord, static_cast<i64>(a), ns[in])), ob | (static_cast<u64>(8 + t) << 48) | (static_cast<u64>(ord) << 44) | (1ull << 43) | (in * 16 + static_cast<u64>(sg * 8 + d + 2)), lv, br); } } }
         std::vector<u64> out(Sa.size());
         s->fm_mixed_col(M_MUL, t, ord, Sa.data(), Sa.size(), ns[in], out.data());
         for( size_t ia = 0; ia < Sa.size(); ++ia )
@@ -98,6 +146,8 @@ void replay02(Options const& o, Shim* s, Recorder& rec)
   C02 c(rec); DirectViol d{rec};
   if( o.rcase == "ff" ) { int op = static_cast<int>(parse_i64(o.rin.at(0))); i64 a = parse_i64(o.rin.at(1)), b = parse_i64(o.rin.at(2));
     c.ff(s, op, a, b, s->fm_bin(op, a, b), 0, d); i64 out; s->fm_bin_row(op, a, &b, 1, &out); c.ff(s, op, a, b, out, 0, d); }
+  else if( o.rcase == "self" ) { i64 x = parse_i64(o.rin.at(0)); i64 g = s->fm_un(U_MULEQ_SELF, x), e = s->fm_bin(B_MULEQ, x, x);
+    if( g != e && !(fx_isnan(g) && fx_isnan(e)) ) rec.viol(rec.cls("C02.mul_self_aliased.wrong"), 0, [&]{ return ex1(s, "x *= x (same object)", "", {{"x",to_s(x)}}, to_s(e), to_s(g), o.rcase, o.rin); }); }
   else { int t = static_cast<int>(parse_i64(o.rin.at(0))), ord = static_cast<int>(parse_i64(o.rin.at(1))); i64 a = parse_i64(o.rin.at(2)); u64 n = parse_u64(o.rin.at(3));
     c.scalar(s, t, ord, a, n, static_cast<i64>(s->fm_mixed(M_MUL, t, ord, a, n)), 0, d); u64 out; s->fm_mixed_col(M_MUL, t, ord, &a, 1, n, &out); c.scalar(s, t, ord, a, n, static_cast<i64>(out), 0, d); }
   rec.add_states(1,1,1);
@@ -174,6 +224,39 @@ void explore03(Options const& o, std::vector<Shim*> const& shims, std::vector<Sh
       u64 n = static_cast<u64>(S.size()) * S.size(); rec.add_states(n, 2*n, 2*n);
       rec.count("branch.ff.zero_divisor", brs[0]); rec.count("branch.ff.dividend_below_2^31", brs[1]); rec.count("branch.ff.dividend_at_least_2^31", brs[2]);
       }
+    // ---- x /= x with the same object on both sides
+    {
+    LocalViol lv(rec);
+    for( size_t i = 0; i < S.size(); ++i )
+      { i64 x = S[i], g = 0; int sg = guarded([&]{ g = s->fm_un(U_DIVEQ_SELF, x); });
+        if( sg ) c.trap(s, "x /= x (same object)", "", x, "b", to_s(x), sg, "self", {to_s(x)}, ob | (6ull << 48) | i, lv); else c.ff(s, B_DIVEQ, x, x, g, ob | (6ull << 48) | i, lv); }
+    rec.add_states(S.size(), S.size(), S.size());
+    }
+    // ---- dense fraction windows: every low-16-bit pattern of the divisor (and of the dividend) at every magnitude
+    {
+    std::vector<i64> As { 1, 3, 65536, 98304, 1ll<<20, (1ll<<31) + 12345, 1ll<<32, (1ll<<40) + 1, 0x5555555555ll, 1ll<<46, (1ll<<47) - 1, 1ll<<47, 0x6487ed5110b4ll, 1ll<<55, 1ll<<62, 0x5555555555555555ll, 0x7fb9e1c83a6d2f05ll, FX_MAX };
+    size_t na = As.size(); for( size_t i = 0; i < na; ++i ) As.push_back(-As[i]);
+    std::vector<i64> bases { 0 }; for( int e = 16; e <= 62; ++e ) { bases.push_back(1ll << e); bases.push_back(-(1ll << e)); if( e < 62 ) bases.push_back(3ll << (e - 1)); }
+    for( int op : { B_DIV, B_DIVEQ } ) for( int swap = 0; swap < 2; ++swap )
+      parallel_blocks(bases.size(), o.threads, [&](size_t bi, int) {
+        LocalViol lv(rec); std::vector<i64> bw(65536), out(65536), av(65536);
+        for( size_t t = 0; t < 65536; ++t ) bw[t] = bases[bi] + static_cast<i64>(t);
+        for( size_t ai = 0; ai < As.size(); ++ai )
+          {
+          int sig;
+          if( !swap ) sig = guarded([&]{ s->fm_bin_row(op, As[ai], bw.data(), bw.size(), out.data()); });
+          else { std::fill(av.begin(), av.end(), As[ai]); sig = guarded([&]{ s->fm_bin_batch(op, bw.data(), av.data(), bw.size(), out.data()); }); }
+          for( size_t t = 0; t < 65536; ++t )
+            {
+            i64 a = swap ? bw[t] : As[ai], b = swap ? As[ai] : bw[t];
+            u64 ord = ob | (7ull << 48) | (static_cast<u64>(op) << 44) | (static_cast<u64>(swap) << 43) | ((bi * As.size() + ai) << 16) | t;
+            if( sig ) { i64 g = 0; int sg = guarded([&]{ g = s->fm_bin(op, a, b); }); if( sg ) c.trap(s, "operator / (fixed,fixed)", "dense window", a, "b", to_s(b), sg, "ff", {to_s(op), to_s(a), to_s(b)}, ord, lv); else c.ff(s, op, a, b, g, ord, lv); }
+            else c.ff(s, op, a, b, out[t], ord, lv);
+            }
+          }
+        });
+    u64 n = static_cast<u64>(bases.size()) * As.size() * 65536 * 4; rec.add_states(n, n, n); rec.count("dense_fraction_window_states", n);
+    }
     for( int t : INT_TYPES ) for( int ord : { O_FIX_T, O_ASSIGN } )
       {
       std::vector<u64> const& ns = tv[t];
@@ -211,6 +294,8 @@ void replay03(Options const& o, Shim* s, Recorder& rec)
     if( sg ) c.trap(s, "operator /", "vv", a, "b", to_s(b), sg, o.rcase, o.rin, 0, d); else c.ff(s, op, a, b, g, 0, d);
     i64 out = 0; sg = guarded([&]{ s->fm_bin_row(op, a, &b, 1, &out); });
     if( sg ) c.trap(s, "operator /", "loop", a, "b", to_s(b), sg, o.rcase, o.rin, 0, d); else c.ff(s, op, a, b, out, 0, d); }
+  else if( o.rcase == "self" ) { i64 x = parse_i64(o.rin.at(0)); i64 g = 0; int sg = guarded([&]{ g = s->fm_un(U_DIVEQ_SELF, x); });
+    if( sg ) c.trap(s, "x /= x (same object)", "", x, "b", to_s(x), sg, o.rcase, o.rin, 0, d); else c.ff(s, B_DIVEQ, x, x, g, 0, d); }
   else { int t = static_cast<int>(parse_i64(o.rin.at(0))), ord = static_cast<int>(parse_i64(o.rin.at(1))); i64 a = parse_i64(o.rin.at(2)); u64 n = parse_u64(o.rin.at(3));
     u64 g = 0; int sg = guarded([&]{ g = s->fm_mixed(M_DIV, t, ord, a, n); });
     if( sg ) c.trap(s, "operator / scalar", TN[t], a, "n", int_s(t, n), sg, o.rcase, o.rin, 0, d); else c.scalar(s, t, ord, a, n, static_cast<i64>(g), 0, d); }
